@@ -144,8 +144,6 @@ Proof.
   induction W as [|row rows Hr W IH]; simpl; constructor; auto. apply srow_dot_dense; assumption.
 Qed.
 
-Lemma srow_mat_length k row X : length (srow_mat k row X) = k \/ True.
-Proof. right; exact I. Qed.
 Lemma srow_mat_dense n k row X : srow_wf n row -> wf_mat n k X -> srow_mat k row X =v vec_mat k (dense_row n row) X.
 Proof.
   intros W WX. pose proof (wf_mat_rows _ _ _ WX) as FX. induction W as [|e row He W IH].
@@ -1449,9 +1447,6 @@ Proof.
   - rewrite mat_vec_vzero, HA. reflexivity.
   - rewrite mat_vec_vadd by (rewrite vsum_length; auto). rewrite IH. reflexivity.
 Qed.
-Lemma vsum_map_shift {A} n (f : nat -> vec) (l : list A) (g : A -> nat) :
-  vsum n (map (fun a => f (g a)) l) = vsum n (map f (map g l)).
-Proof. rewrite map_map. reflexivity. Qed.
 
 Lemma power_sum_cons n A c cs x : wf_mat n n A -> length x = n ->
   power_sum n A (c :: cs) x =v vadd (vscale c x) (mat_vec A (power_sum n A cs x)).
